@@ -527,85 +527,205 @@ func encodeCase(p *packages.Package, cc *ast.CaseClause) *encCase {
 	return ec
 }
 
-// ruleQuality: every Phred-offset encoding has agreeing Encode/Decode cases,
-// and so has Solexa on the Solexa scale.
+// ruleQuality: every Phred-offset encoding has agreeing Encode/Decode
+// behaviour, and so has Solexa on the Solexa scale. The four functions are
+// read by partial evaluation (peval.go) with the encoding constant and the
+// score/byte symbolic, so a switch, an if chain, a helper that applies the
+// offset, or a delegation to the sibling decoder are all read alike.
 func ruleQuality(c *Ctx) {
 	const rule = "tables/quality"
 	p := c.pkg("alphabet")
-	// the Encoding constants
-	var encs []string
+	type encConst struct {
+		name string
+		val  int64
+	}
+	var encs []encConst
 	sc := p.Types.Scope()
 	for _, n := range sc.Names() {
 		if k, ok := sc.Lookup(n).(*types.Const); ok && isNamed(k.Type(), p.PkgPath, "Encoding") {
-			encs = append(encs, n)
+			if v, ok := constant.Int64Val(k.Val()); ok {
+				encs = append(encs, encConst{n, v})
+			}
 		}
 	}
 	if len(encs) < 7 {
 		c.und(rule, "alphabet.Encoding/constants", token.NoPos, fmt.Sprintf("found %d Encoding constants, expected >= 7", len(encs)))
 		return
 	}
-	dP, _ := c.decl("alphabet", "Encoding.DecodeToQphred")
-	dS, _ := c.decl("alphabet", "Encoding.DecodeToQsolexa")
-	eP, _ := c.decl("alphabet", "Qphred.Encode")
-	eS, _ := c.decl("alphabet", "Qsolexa.Encode")
-	decP, decS, encP, encS := encSwitch(p, dP), encSwitch(p, dS), encSwitch(p, eP), encSwitch(p, eS)
-
-	pair := func(name, scale string, dec, enc map[string]*ast.CaseClause, dfd, efd *ast.FuncDecl) {
+	dP := c.fn("alphabet", "Encoding.DecodeToQphred")
+	dS := c.fn("alphabet", "Encoding.DecodeToQsolexa")
+	eP := c.fn("alphabet", "Qphred.Encode")
+	eS := c.fn("alphabet", "Qsolexa.Encode")
+	for _, f := range []*ssa.Function{dP, dS, eP, eS} {
+		c.Funcs[funcName(f)] = true
+	}
+	sym := aval{known: true, coef: 1}
+	run := func(f *ssa.Function, args ...aval) []poutcome {
+		pe := &peval{convNames: map[string]bool{"Qphred": true, "Qsolexa": true}, maxPaths: 400}
+		return pe.run(f, args, 0)
+	}
+	type decInfo struct {
+		present, direct, hasOffset bool
+		offset                     int64
+		why                        string
+	}
+	readDecode := func(f *ssa.Function, e int64) decInfo {
+		var d decInfo
+		outs := run(f, aval{known: true, k: e}, sym) // receiver e, byte q
+		var live []poutcome
+		for _, o := range outs {
+			if !o.panics {
+				live = append(live, o)
+			}
+		}
+		if len(live) == 0 {
+			return d
+		}
+		d.present = true
+		n := 0
+		for _, o := range live {
+			if o.noRes || !o.res.known {
+				d.why = "the decoded value could not be evaluated"
+				continue
+			}
+			if o.res.coef == 1 {
+				n++
+				d.offset, d.hasOffset, d.direct = -o.res.k, true, o.res.conv == ""
+			}
+		}
+		if n != 1 {
+			d.hasOffset = false
+			if d.why == "" {
+				d.why = fmt.Sprintf("%d paths return the byte minus a constant", n)
+			}
+		}
+		return d
+	}
+	type encInfo struct {
+		present, direct, hasOffset, clamp, guardUnsigned bool
+		offset, bound                                    int64
+		why                                              string
+	}
+	readEncode := func(f *ssa.Function, e int64) encInfo {
+		var en encInfo
+		outs := run(f, sym, aval{known: true, k: e}) // receiver score, encoding e
+		pairs := map[[2]int64]bool{}
+		en.direct = true
+		for _, o := range outs {
+			if o.panics || o.noRes || !o.res.known {
+				continue
+			}
+			// sentinel scores are tested for equality and answered with a constant
+			sentinel := false
+			for _, g := range o.guards {
+				if g.op == token.EQL && g.lhs.conv == "" {
+					sentinel = true
+				}
+			}
+			if sentinel {
+				continue
+			}
+			switch {
+			case o.res.coef == 1 && o.res.k != 0:
+				// the offset: which upper bound guards it?
+				for _, g := range o.guards {
+					if g.lhs.coef != 1 {
+						continue
+					}
+					b, ok := int64(0), false
+					switch g.op {
+					case token.LEQ:
+						b, ok = g.c-g.lhs.k, true
+					case token.LSS:
+						b, ok = g.c-g.lhs.k-1, true
+					}
+					if ok && g.lhs.conv == o.res.conv && g.lhs.k == 0 {
+						pairs[[2]int64{o.res.k, b}] = true
+						en.offset, en.bound, en.hasOffset = o.res.k, b, true
+						en.guardUnsigned = g.unsigned
+						en.present = true
+					}
+				}
+				if o.res.conv != "" {
+					en.direct = false
+				}
+			case o.res.coef == 1:
+				en.present = true
+				if o.res.conv != "" {
+					en.direct = false
+				}
+			case o.res.coef == 0 && o.res.k != 0:
+				// a constant answer under an ordering test of the (offset) score: a clamp
+				for _, g := range o.guards {
+					if g.lhs.coef == 1 && (g.op == token.LSS || g.op == token.LEQ) {
+						en.clamp = true
+					}
+				}
+				en.present = true
+			}
+		}
+		if len(pairs) != 1 {
+			en.hasOffset = false
+			en.why = fmt.Sprintf("%d different (offset, bound) pairs on the paths of the encode function", len(pairs))
+		}
+		return en
+	}
+	pair := func(name string, ev int64, scale string, dfn, efn *ssa.Function) {
 		key := "alphabet.Encoding/" + name + "/" + scale
-		dc, ecl := dec[name], enc[name]
-		if dc == nil {
-			c.bad(rule, key+"-decode-case", dfd.Pos(), fmt.Sprintf("encoding %s has no case in %s: decoding it panics with \"illegal encoding\"", name, dfd.Name.Name))
+		d := readDecode(dfn, ev)
+		if !d.present {
+			c.bad(rule, key+"-decode-case", dfn.Pos(), fmt.Sprintf("encoding %s has no case in %s: decoding it panics with \"illegal encoding\"", name, dfn.Name()))
 			return
 		}
-		c.ok(rule, key+"-decode-case", dc.Pos(), "case present")
-		if ecl == nil {
-			c.bad(rule, key+"-encode-case", efd.Pos(), fmt.Sprintf("encoding %s has no case in %s.Encode: every score encodes to the zero byte", name, scale))
+		c.ok(rule, key+"-decode-case", dfn.Pos(), "case present")
+		e := readEncode(efn, ev)
+		if !e.present {
+			c.bad(rule, key+"-encode-case", efn.Pos(), fmt.Sprintf("encoding %s has no case in %s.Encode: every score encodes to the zero byte", name, scale))
 			return
 		}
-		c.ok(rule, key+"-encode-case", ecl.Pos(), "case present")
-		d, e := decodeCase(p, dc, name), encodeCase(p, ecl)
+		c.ok(rule, key+"-encode-case", efn.Pos(), "case present")
 		if !d.hasOffset || !e.hasOffset {
-			c.und(rule, key+"-offset-agree", ecl.Pos(), "cannot read offsets: "+d.why+" "+e.why)
+			c.und(rule, key+"-offset-agree", efn.Pos(), "cannot read offsets: "+d.why+" "+e.why)
 			return
 		}
 		switch {
 		case !d.direct || !e.direct:
-			c.bad(rule, key+"-offset-agree", ecl.Pos(), "a scale conversion is applied inside the "+scale+"-scale encode/decode of "+name)
+			c.bad(rule, key+"-offset-agree", efn.Pos(), "a scale conversion is applied inside the "+scale+"-scale encode/decode of "+name)
 		case d.offset != e.offset:
-			c.bad(rule, key+"-offset-agree", ecl.Pos(), fmt.Sprintf("Encode adds %d but Decode subtracts %d", e.offset, d.offset))
+			c.bad(rule, key+"-offset-agree", efn.Pos(), fmt.Sprintf("Encode adds %d but Decode subtracts %d", e.offset, d.offset))
 		case e.bound+e.offset != '~':
-			c.bad(rule, key+"-offset-agree", ecl.Pos(), fmt.Sprintf("offset applied up to score %d, i.e. byte %d; the printable range ends at '~' (126)", e.bound, e.bound+e.offset))
+			c.bad(rule, key+"-offset-agree", efn.Pos(), fmt.Sprintf("offset applied up to score %d, i.e. byte %d; the printable range ends at '~' (126)", e.bound, e.bound+e.offset))
 		default:
-			c.ok(rule, key+"-offset-agree", ecl.Pos(), fmt.Sprintf("Encode +%d for scores <= %d, Decode -%d, bound+offset = '~'", e.offset, e.bound, d.offset))
+			c.ok(rule, key+"-offset-agree", efn.Pos(), fmt.Sprintf("Encode +%d for scores <= %d, Decode -%d, bound+offset = '~'", e.offset, e.bound, d.offset))
 		}
 		// Only Illumina 1.5+ reserves its lowest bytes (0,1 unused, 2 = 'B' the read
 		// segment quality control indicator): a clamp anywhere else makes distinct
 		// printable scores collide.
 		if e.clamp {
 			if name == "Illumina1_5" {
-				c.ok(rule, key+"-clamp", e.clampPos, "Illumina 1.5 clamps scores below 'B' by design (0,1 unused, 2 = indicator)")
+				c.ok(rule, key+"-clamp", efn.Pos(), "Illumina 1.5 clamps scores below 'B' by design (0,1 unused, 2 = indicator)")
 			} else {
-				c.bad(rule, key+"-clamp", e.clampPos, "the Encode case of "+name+" clamps low bytes to a constant: scores inside its printable range (which starts at 0) collide and do not decode back; only Illumina1_5 reserves its lowest values")
+				c.bad(rule, key+"-clamp", efn.Pos(), "the Encode case of "+name+" clamps low bytes to a constant: scores inside its printable range (which starts at 0) collide and do not decode back; only Illumina1_5 reserves its lowest values")
 			}
 		}
 		// A signed score type has printable negative scores (Solexa -5..-1 are ';'..'?'):
 		// the range guard must see the signed value, not its unsigned image.
 		if scale == "Qsolexa" {
 			if e.guardUnsigned {
-				c.bad(rule, key+"-negative-scores", ecl.Pos(), "the score is converted to an unsigned byte before the `<= "+fmt.Sprint(e.bound)+"` range test, so every negative Solexa score (e.g. -5..-1, which print as ';'..'?') fails the test, never receives the +"+fmt.Sprint(e.offset)+" offset and is encoded as a byte >= 128 that does not decode back")
+				c.bad(rule, key+"-negative-scores", efn.Pos(), "the score is converted to an unsigned byte before the `<= "+fmt.Sprint(e.bound)+"` range test, so every negative Solexa score (e.g. -5..-1, which print as ';'..'?') fails the test, never receives the +"+fmt.Sprint(e.offset)+" offset and is encoded as a byte >= 128 that does not decode back")
 			} else {
-				c.ok(rule, key+"-negative-scores", ecl.Pos(), "the range guard is evaluated on the signed score: negative printable scores receive the offset")
+				c.ok(rule, key+"-negative-scores", efn.Pos(), "the range guard is evaluated on the signed score: negative printable scores receive the offset")
 			}
 		}
 	}
 	for _, n := range encs {
-		switch n {
+		switch n.name {
 		case "None":
 			c.triv(rule, "alphabet.Encoding/None", token.NoPos, "None carries no scores")
 		case "Solexa":
-			pair(n, "Qsolexa", decS, encS, dS, eS)
+			pair(n.name, n.val, "Qsolexa", dS, eS)
 		default:
-			pair(n, "Qphred", decP, encP, dP, eP)
+			pair(n.name, n.val, "Qphred", dP, eP)
 		}
 	}
 	c.floor(rule, 6*3)
@@ -792,6 +912,26 @@ func ruleCaseFold(c *Ctx, rule string) {
 		}
 		return false
 	}
+	// blocks where caseSensitive is known true (their stores cannot be what an uncased block reads)
+	cased := func(b *ssa.BasicBlock) bool {
+		for d := b; d != nil; d = d.Idom() {
+			if d == b {
+				continue
+			}
+			ifi, ok := d.Instrs[len(d.Instrs)-1].(*ssa.If)
+			if !ok {
+				continue
+			}
+			e := forcedEdge(d, b)
+			if ifi.Cond == ssa.Value(csParam) && e == 0 {
+				return true
+			}
+			if u, ok := ifi.Cond.(*ssa.UnOp); ok && u.Op == token.NOT && u.X == ssa.Value(csParam) && e == 1 {
+				return true
+			}
+		}
+		return false
+	}
 	var origin func(v ssa.Value, at *ssa.BasicBlock, depth int) string // "folded", "raw", "other"
 	origin = func(v ssa.Value, at *ssa.BasicBlock, depth int) string {
 		if depth > 8 {
@@ -839,6 +979,27 @@ func ruleCaseFold(c *Ctx, rule string) {
 					}
 					if best != nil {
 						return origin(best.Val, at, depth+1)
+					}
+					// no single dominating store: every store that can reach the load, except those made
+					// where caseSensitive is known true, must agree
+					res, cnt := "folded", 0
+					for _, bb := range fn.Blocks {
+						for _, ins := range bb.Instrs {
+							st, ok := ins.(*ssa.Store)
+							if !ok {
+								continue
+							}
+							if n, ok := fieldOf(st.Addr, pkg, "alpha"); !ok || n != name || cased(bb) || !reachesInstr(st, x) {
+								continue
+							}
+							cnt++
+							if o := origin(st.Val, at, depth+1); o != "folded" {
+								res = o
+							}
+						}
+					}
+					if cnt > 0 {
+						return res
 					}
 				}
 			}
